@@ -7,6 +7,7 @@ open Ebu.Upcast Driver
 structure DSt where
   g : Graph := []
   errH : Bool := false
+  last : Option Stored := none       -- the stored event of the last `replay` (a replay never changes it)
 
 def showCalls (l : List (Nat × List Nat)) : String :=
   if l.isEmpty then "-" else ";".intercalate (l.map fun (t, d) => s!"{t}:{showNatList d}")
@@ -32,7 +33,15 @@ def step (s : DSt) (line : String) : DSt × String :=
   | ["racereg", _] => (s, "racereg ok")
   | ["clear"] => ({ s with g := clear s.g }, "clear")
   | ["cleartype", t] => ({ s with g := clearType s.g (nat! t) }, "cleartype")
+  | ["replayagain"] =>
+    match s.last with
+    | none => (s, "replayagain skip")
+    | some st =>
+      let (e, r) := upcastStored s.g s.errH st
+      let s := if r.calls.any (fun c => c.1 ≥ 200) then { s with g := clear s.g } else s
+      (s, s!"seen off={e.off} ts={e.ts} ty={e.ty} data={showNatList e.data} opt={e.opt} calls={showCalls r.calls} errh={showCalls r.errCalls}")
   | ["replay", off, ts, ty, d, opt] =>
+    let s := { s with last := some ⟨nat! off, nat! ts, nat! ty, natList d, nat! opt⟩ }
     let (e, r) := upcastStored s.g s.errH ⟨nat! off, nat! ts, nat! ty, natList d, nat! opt⟩
     -- an upcaster with tag ≥ 200 starts a concurrent ClearUpcasts when it is invoked: the chain is applied against
     -- the registry as it was, the clear takes effect afterwards
